@@ -281,6 +281,20 @@ class Routes:
             sc = m.ConvertScalarToCurrent(Scalar(c, x0, u))
             self.cmp("UnitSystemManager.ConvertScalarToCurrent", sc.value, [r0], case, au, av, [x0])
             self.meta("UnitSystemManager.ConvertScalarToCurrent", sc, c, qt, v, case)
+            # the current system edited in place (no other system selected in between): the next conversion goes to the new unit
+            w = next((t for t in db.GetUnits(qt) if t not in (u, v) and t in aff and aff[t].exact and aff[t].slope), None)
+            if w is not None:
+                m.GetCurrent().SetDefaultUnit(c, w)
+                r3 = m.ConvertToCurrent(c, u, float(x0))
+                self.cmp("UnitSystemManager.ConvertToCurrent after SetDefaultUnit on the current system", r3[0], [db.Convert(qt, u, w, float(x0))], case, au, aff[w], [x0])
+                self.ctx.ev()
+                if r3[1] != w:
+                    self.bad("UnitSystemManager.ConvertToCurrent after SetDefaultUnit on the current system", "unit", case, {"got": r3[1], "want": w})
+                sc3 = m.ConvertScalarToCurrent(Scalar(c, x0, u))
+                self.cmp("UnitSystemManager.ConvertScalarToCurrent after SetDefaultUnit on the current system", sc3.value, [db.Convert(qt, u, w, float(x0))], case, au, aff[w], [x0])
+                m.GetCurrent().RemoveCategory(c)
+                r4 = m.ConvertToCurrent(c, u, float(x0))
+                self.cmp("UnitSystemManager.ConvertToCurrent after RemoveCategory on the current system", r4[0], [float(x0)], case, None, None, [x0])
             m2 = UnitSystemManager()
             m2.AddUnitSystem("y", "Y", {})
             sc2 = m2.ConvertScalarToCurrent(Scalar(c, x0, u))
@@ -435,6 +449,13 @@ def run(ctx):
     hv = values.hostile()
     for kind in ("posc", "simple"):
         db = table.build(kind)
+        if kind == "posc":
+            # application categories whose default is a non-zero amount in a unit that is not the base unit of the type
+            # (every shipped default is 0 or sits in the base unit - "the amount of that default" is then hardly asked)
+            db.AddCategory("vp casing length", "length", default_unit="ft", default_value=100.0)
+            db.AddCategory("vp room temperature", "temperature", default_unit="degC", default_value=25.0)
+            db.AddCategory("vp line pressure", "pressure", default_unit="psi", default_value=14.5, min_value=0.0)
+            db.AddCategory("vp rate", "volume flow rate", default_unit="Mcf/d", default_value=999.99, valid_units=["Mcf/d", "m3/s", "bbl/d", "Mm3/d"])
         with table.pushed(db):
             aff = conv.describe(db)
             R = Routes(ctx, db, aff)
